@@ -296,7 +296,35 @@ def neq_const_edges(fn, subject_pred, literal):
             continue
         if subject_pred(peel(subj)):
             good.append((b, ne_t))
+    # `NAMES.contains(&subject)` / `NAMES.iter().any(|n| *n == subject)` over a constant list that contains the literal: on the false edge the
+    # subject differs from every listed name
+    for (b, tt, ft, c) in bool_switches(fn):
+        m = membership(peel(c))
+        if m is None:
+            continue
+        lst = const_str_list(m[0])
+        if lst is not None and literal in lst and subject_pred(peel(m[1])):
+            good.append((b, ft))
     return good
+
+
+def const_str_list(v):
+    """the strings of a constant / literal array of string constants, else None"""
+    v = peel(v)
+    g = 0
+    while v.kind in ("index", "field", "alias") and v.kids and g < 3:
+        v = peel(v.kids[0])
+        g += 1
+    if v.kind == "const":
+        val = (v.d.get("c") or {}).get("value") or {}
+        arr = val.get("array") if isinstance(val, dict) else None
+        if isinstance(arr, list) and arr and all(isinstance(e, dict) and "str" in e for e in arr):
+            return [e["str"] for e in arr]
+        return None
+    if v.kind == "agg" and v.d["agg"].get("kind") == "array":
+        out = [const_value(k) for k in v.kids]
+        return out if out and all(isinstance(x, str) for x in out) else None
+    return None
 
 
 # ---- mutation table ------------------------------------------------------------------------
